@@ -241,9 +241,10 @@ def r13_4_publication(ctx: Ctx) -> RuleResult:
         stored = unparse(st.value)
         returned = any(isinstance(n, ast.Return) and n.value is not None and unparse(n.value) == stored for n in own_nodes(f.node))
         locked = any(inside(st, r.node) for r in regs)
-        # the emptiness test that decides to create must be inside the same locked region as the store
-        tests_locked = all(any(inside(n, r.node) for r in regs) for n in own_nodes(f.node)
-                           if isinstance(n, ast.Call) and isinstance(n.func, ast.Attribute) and n.func.attr == "get" and fld in unparse(n.func.value))
+        # the emptiness test that decides to create must be inside the *same* locked region as the store (check-then-act
+        # split over two regions lets two callers both see "absent" and both create)
+        gets = [n for n in own_nodes(f.node) if isinstance(n, ast.Call) and isinstance(n.func, ast.Attribute) and n.func.attr == "get" and fld in unparse(n.func.value)]
+        tests_locked = any(inside(st, r.node) and all(inside(g, r.node) for g in gets) for r in regs)
         if returned and not (locked and tests_locked):
             rr.fail(q, f"check-then-act on the shared registry `{fld}` without a lock: two racing callers each create `{stored}` and the loser's object is returned although another one is registered (lookups stop returning one identity)", ctx.loc(f, st))
         else:
